@@ -376,7 +376,7 @@ CHECKS = {
             "(no theorem speaks of them); acyclic graphs; pickle model is a tree (internal sharing checked by oracle only); dtype of an empty ndarray is not content.",
             "Lean 4 proof over a hand-written heap model + differential correspondence (in-process and fresh interpreter) + oracle with mutation test"),
     "C17": ("partial",
-            "Lean theorems, two layers. (1) Algebra of checkpointing and order-preserving maps for every step function, crash list and completion schedule: "
+            "Lean theorems, four layers. (1) Algebra of checkpointing and order-preserving maps for every step function, crash list and completion schedule: "
             "C17.deterministic(_on), run_add, resume(_at), resumeFrom_eq, resume_many(_from), resume_needs_complete_state, schedule_independent/covering/missing, "
             "pmap_eq_some_iff, loop/init_mapper_independent, loop_schedule_independent, genLoop_eq_run. (2) The same three equations for the generational machine "
             "of Core/Loops.lean that C02/C03 are proved about: state_complete(_core) (the loop state - population with fitnesses, hall-of-fame feed, logbook rows, "
@@ -384,20 +384,33 @@ CHECKS = {
             "_via_run, _runPop) and its corollaries for eaSimple / eaMuPlusLambda / eaMuCommaLambda / harm / eaGenerateUpdate at every generation boundary of every "
             "run, c03_resume_needs_tape (dropping the generator state from the checkpoint changes the run: the hypothesis is necessary), c03_evalPhase_seq/"
             "_mapper_independent/_schedule_independent/_schedule_at and the lifts c03_generation/runGens/runPop/eaSimple_schedule_independent (any mapper that "
-            "returns the evaluations in input order, completed under any schedule, gives the same run). The runtime check (13 families in harness/props/"
+            "returns the evaluations in input order, completed under any schedule, gives the same run). (3) Hidden state made explicit (Resume.HRun: a step that "
+            "reads and writes a component H the checkpoint does not save): resume_of_hidden_constant / rerun_of_hidden_constant (a step that never WRITES H resumes "
+            "and repeats correctly - the premise the runtime hidden-state detector checks), resume_iff_hidden_irrelevant (for a step that does write H: resumption "
+            "is correct for every start state, restart value and crash point IFF the visible output never depends on H), rerun/restoreSame_of_hidden_irrelevant, "
+            "hidden_state_breaks_resume (the module-level cycle of seeded change C17-r4m3 as a concrete machine where every equation fails), hrun_unit, and the lift "
+            "c03_resume_hidden_constant to the C03 machine whose tape is (generator states, hidden component). (4) tools.migRing (Core/Migration.lean, transcribed "
+            "incl. its ValueError/IndexError paths and compared with the real function on 150/1500 inputs per run): migRing_deterministic (a function of the demes, "
+            "k, the migration array and of what the callables return on these demes), migRing_shape (number and sizes of demes kept), migRing_conserves (no "
+            "replacement strategy, equally many emigrants per deme, permutation array: the multiset of genomes is unchanged). The runtime check (17 families in harness/props/"
             "c17_families.py: GA on lists, NSGA-II, SPEA2, NSGA-III with memory, GP with ephemerals, CMA-ES, (1+lambda)-CMA, MO-CMA-ES with mu=,<,>lambda, float32 "
-            "numpy ES, CMA-ES N=30, GA with MultiStatistics and a streamed logbook; shared-object variants; the 4 packaged loops) evaluates the three equations on the "
-            "implementation: twice in-process and in a fresh interpreter; kill -9 after EVERY generation of EVERY family (quick: two pickle protocols per crash point "
+            "numpy ES, CMA-ES N=30, GA with MultiStatistics and a streamed logbook, two strongly typed GP families, GP with partial(random.randint) ephemerals and an "
+            "odd population, GA on 3 demes with migRing; shared-object variants; the 4 packaged loops) evaluates the three equations on the "
+            "implementation: twice in-process and in a fresh interpreter; twice in a row at run lengths 0,1,(2); every checkpoint restored in the same process; a deep "
+            "fingerprint of ALL module-level and class-level state of every deap.* module (containers, iterators, class attributes, function defaults, closure cells) "
+            "and of the script's primitive sets around every family run and around one call of each of the 89 public operators of deap.tools/gp/algorithms/cma - state "
+            "a run leaves behind is reported as a correspondence break naming the attribute; kill -9 after EVERY generation of EVERY family (quick: two pickle protocols per crash point "
             "rotating over all six, thorough: all six, 3 seeds) and resume in a new process; fork pools of 1..8 workers and one spawn pool with per-task delays, all "
             "24 permutations of small map calls - comparing complete fingerprints (genomes with dtype, fitness, archives with keys, logbooks incl. chapters and "
             "stream position, strategy and selector-memory arrays byte-wise, both generator states).",
             TB + "partial: the theorems speak about the abstract machine (pure evaluate, operators meeting C02's OpContract, randomness as a tape); that every real "
             "object pickles its complete state, that no operator keeps state outside the two generators, that evaluation is pure and that CPython's hash seed does "
-            "not leak into any draw is what the process-level oracle tests, not a theorem. The protocol lines of this check (pmap with a schedule, toy resume) "
-            "tie only the driver's algebra to completion orders observed in real pools. OS (SIGKILL, fresh process), multiprocessing.Pool.map as an order-"
+            "not leak into any draw is what the process-level oracle and the hidden-state detector test, not a theorem (the detector cannot see state held inside C "
+            "objects without __reduce__). The protocol lines pmap / resume / hresume "
+            "tie only the driver's algebra to harness-local helpers and to completion orders observed in real pools; the mig lines tie Migration.migRingWith to tools.migRing. OS (SIGKILL, fresh process), multiprocessing.Pool.map as an order-"
             "preserving map, and the fingerprint's completeness are trusted.",
-            "Lean 4 proof over the C03 loop machine (state completeness, resume, schedule independence) + process-level differential testing (kill/resume at every "
-            "generation and protocol, permuted and pooled maps)"),
+            "Lean 4 proof over the C03 loop machine (state completeness, resume, schedule independence, hidden-state non-interference) and over a model of migRing + "
+            "process-level differential testing (kill/resume at every generation and protocol, permuted and pooled maps) + hidden-state fingerprinting of the library"),
 }
 
 NOT_YET = {}
